@@ -1156,6 +1156,17 @@ pub fn run(ctx: &mut Ctx, args: &[String]) {
         }
     }
     if ctx.has("bfwithlen") && ctx.shard.0 == 0 {
+        // every small (bytes, declared length) pair, whatever the budget: the boundary cases of the constructor
+        // (no bytes, one zero byte, a length of zero, lengths that are not whole bytes) are not left to chance
+        let small: Vec<Vec<u8>> = vec![
+            vec![], vec![0], vec![1], vec![0x80], vec![0xff], vec![0, 0], vec![0, 1], vec![0xff, 0x7f], vec![0xff, 0xff],
+            vec![0, 0, 0], vec![1, 2, 3],
+        ];
+        for b in &small {
+            for l in [0usize, 1, 7, 8, 9, 15, 16, 17, 23, 24, 25, 32] {
+                withlen_case(ctx, b, l);
+            }
+        }
         for _ in 0..count {
             let mut r = ctx.rng.clone();
             let b = gen_bf_bytes(&mut r, 24);
